@@ -148,7 +148,7 @@ def plan(tier, seed):
 
 def finish(acc, tier, seed):
     reasons = []
-    need = 30000 if tier == "quick" else 400000
+    need = 20000 if tier == "quick" else 400000
     if acc.evals < need:
         reasons.append(f"tiling monitor ran on only {acc.evals} finished token streams (< {need})")
     return reasons
